@@ -29,7 +29,8 @@ META = {
             "C03-vt-ff-as-ows (`Transfer-Encoding: chunked<VT>` honoured as chunked, embedded request forwarded) is repaired "
             "in /repo (cc868a1): the witness streams are now answered 501 / 400 in both parser modes, as theorems and as "
             "regression scenarios replayed against the running proxy. C03_vt_in_chunk_ext_refuted: the relaxed parser still "
-            "reads VT as bad white space inside a chunk extension (known finding C03-chunk-ext-bws-vt-ff). Tie: method ids, status codes, body-pipe capacity, character sets, header table regenerated from the code; "
+            "reads VT as bad white space inside a chunk extension (known finding C03-chunk-line-bws); C03_vt_in_content_length_list_refuted: " 
+            "and next to an element of a Content-Length list (C03-cl-list-vt-ff). Tie: method ids, status codes, body-pipe capacity, character sets, header table regenerated from the code; "
             "the extracted model is diffed against the REAL squid (both parser modes) on generated pipelined streams with "
             "Content-Length / Transfer-Encoding / white-space / line-ending / NUL / bare-CR / obs-fold / duplicate-field / "
             "chunk-extension / trailer anomalies and CL.TE / TE.CL / TE.TE payloads; a scripted origin logs every request "
@@ -42,8 +43,8 @@ META = {
             "the decoder's leftover from one side only; (c) the stream-level induction over messages from (2)+(3) is not "
             "spelled out; (d) request-target validation (AnyP::Uri), CONNECT/OPTIONS/TRACE/PRI and Expect handling are "
             "outside the model (distinct EOther event); (e) that comm, BodyPipe and FwdState move exactly the delimited "
-            "bytes rests on the end-to-end correspondence. Known findings at /repo HEAD: C03-chunk-ext-bws-vt-ff "
-            "(relaxed mode only) and C03-http09-version-token; the former C03-vt-ff-as-ows is repaired (cc868a1). Trusted: Coq kernel, "
+            "bytes rests on the end-to-end correspondence. Known findings at /repo HEAD: C03-chunk-line-bws, "
+            "C03-cl-list-vt-ff (relaxed mode only) and C03-http09-version-token; the former C03-vt-ff-as-ows is repaired (cc868a1). Trusted: Coq kernel, "
             "extraction, gen/gen_smuggling.cc, vlib/lab.py stubs, the reference readers in checks/c03.py.",
     "technique": "Coq proof (induction over the connection loop and over the header entries, line-structure lemmas for "
                  "headersEnd, reuse of the C22/C24 theorems, vm_compute witness) + end-to-end differential correspondence "
